@@ -495,8 +495,21 @@ pub fn build_sched(which: u32) -> Rig {
       h.next(Val::c(2));
       ninputs = 1;
     }
-    _ => {
+    4 => {
       keep!(observable::interval(world::units(1), sd).map(|n: usize| Val::c(n as i64)).actual_subscribe(probe));
+      ninputs = 0;
+    }
+    _ => {
+      // finalize_threads above a subscribe_on whose source does not terminate by itself: the pool's worker runs the
+      // subscribing task while the other thread unsubscribes
+      let fin = move || {
+        let n = world::bump(1);
+        if n > 1 {
+          e::fail("finalize_threads/ran-twice", || "finalizer invoked a second time".to_string());
+        }
+        probe.forbid("finalize_threads/delivery-after-finalizer");
+      };
+      keep!(cat::hot_tagged_t(0).finalize_threads(fin).subscribe_on(sd).actual_subscribe(probe));
       ninputs = 0;
     }
   }
@@ -524,11 +537,14 @@ pub fn build_sched(which: u32) -> Rig {
 }
 
 fn c02_threads_sched() {
-  let which = e::choose(5);
+  c02_threads_sched_x(e::choose(5))
+}
+
+fn c02_threads_sched_x(which: u32) {
   let rig = build_sched(which);
   world::threads_enable(2, 3);
   let late: Rc<RefCell<Vec<Probe>>> = Rc::new(RefCell::new(vec![]));
-  let name = ["subscribe_on(cold)", "delay_subscription(cold)", "observe_on_threads", "delay_threads", "interval"][which as usize];
+  let name = ["subscribe_on(cold)", "delay_subscription(cold)", "observe_on_threads", "delay_threads", "interval", "finalize_threads.subscribe_on(hot)"][which as usize];
   let key: &'static str = crate::h_sched::leak_key(format!("callback-started-after-unsubscribe-returned/{}", name));
   // T0 = the pool's worker: three executor steps; T1 = the unsubscribing thread
   let mut desc = vec![];
@@ -547,6 +563,11 @@ fn c02_threads_sched() {
   for _ in 0..4 {
     world::run_fifo_bounded(16);
     world::advance(1);
+  }
+  if which == 5 && cat::handle_t_nth(0, 0).is_some() && world::counter(1) != 1 {
+    // the subscribing task did run (the source was subscribed, finalize with it) and the subscription was
+    // unsubscribed: its finalizer ran exactly once. (Cancelled before the task ran, finalize never existed.)
+    e::fail("finalize_threads/not-run-after-unsubscribe", || format!("unsubscribe() raced the pool worker that was running the subscribing task; afterwards the finalizer has run {} time(s)", world::counter(1)));
   }
   e::cover("c02-threads-sched-path-complete");
 }
@@ -961,6 +982,7 @@ pub fn harnesses() -> Vec<HarnessDef> {
   add("c04_threads_preempt", vec!["C04", "C10"], "the two-input _threads combinators with their two inputs driven by two logical threads: monitors + serialisability (a terminal of one input must not be lost or duplicated while the other input is delivering)", |_| "merge, zip, combine_latest, with_latest_from, take_until, skip_until, sample _threads; 2 threads x 2 operations; <= 3 pre-emptions".to_string(), Box::new(|_| c10_preempt(&[Pipe::Merge, Pipe::Zip, Pipe::CombineLatest, Pipe::WithLatestFrom, Pipe::TakeUntil, Pipe::SkipUntil, Pipe::Sample], 2, 3)), 3_000_000, 40_000_000);
   add("c06_threads", vec!["C06"], "SubjectThreads under two logical threads: every subscriber's log stays well-formed and all subscribers agree on the order", |t| format!("2 threads x {} operations", if t { 3 } else { 2 }), Box::new(|t| c10_preempt(&[Pipe::Subject], if t { 3 } else { 2 }, 3)), 3_000_000, 40_000_000);
   add("c12_threads", vec!["C12"], "BehaviorSubject over SubjectThreads: two producers and a late subscriber; peek() = last value in the common delivery order", |_| "2 threads x 2 operations".to_string(), Box::new(|_| c10_preempt(&[Pipe::Behavior], 2, 3)), 3_000_000, 40_000_000);
+  add("c15_threads_sched", vec!["C15", "C02"], "finalize_threads above subscribe_on: the pool worker runs the subscribing task while another thread unsubscribes, at every lock acquisition: the finalizer runs exactly once and nothing is delivered afterwards", |_| "worker: 3 executor steps; 1 unsubscribe; <= 3 pre-emptions".to_string(), Box::new(|_| c02_threads_sched_x(5)), 3_000_000, 40_000_000);
   add("c15_threads", vec!["C15"], "finalize_threads: a terminating thread racing an unsubscribing thread: exactly once", |_| "2 threads x 2 operations".to_string(), Box::new(|_| c10_preempt(&[Pipe::Finalize], 2, 3)), 3_000_000, 40_000_000);
   v
 }
